@@ -1,3 +1,4 @@
+import EdpVerif.Generated.Misc
 import EdpVerif.Lemmas.PidAlloc
 import EdpVerif.Lemmas.RefCounter
 /-
@@ -349,5 +350,19 @@ theorem C16_refs_seq_period (c0 cr i : Nat) : seqRef c0 cr (i + U32) = seqRef c0
   simp only [seqRef, h0, h1, h2]
 
 end Refs
+
+/-- The shared state of the allocator model IS the state the code keeps (regenerated from the source on every run): the two
+counters, the creation and the lock of `PidAllocator`; `Node` keeps one reference counter and one creation; nothing
+process-wide. A second counter, a cache of issued identifiers or a spare slot would be state this model does not know. -/
+theorem C16_state_is_the_sources_state :
+    Edp.Gen.STRUCT_PidAllocator =
+      ["node_name:Atom", "creation:AtomicU32", "next_id:AtomicU32", "next_serial:AtomicU64", "wrap_lock:Mutex<()>"]
+    ∧ Edp.Gen.STRUCT_Node =
+      ["name:Atom", "cookie:String", "creation:Arc<AtomicU32>", "pid_allocator:Arc<PidAllocator>",
+       "reference_counter:Arc<AtomicU32>", "registry:Arc<ProcessRegistry>",
+       "connections:Arc<DashMap<String,Arc<Mutex<Connection>>>>",
+       "pending_rpcs:Arc<DashMap<String,oneshot::Sender<OwnedTerm>>>", "started:Arc<AtomicBool>",
+       "listen_port:Option<u16>", "hidden:bool"]
+    ∧ Edp.Gen.PROCESS_WIDE_STATE = [] := by decide
 
 end Edp.Props.C16
